@@ -11,7 +11,7 @@
      [6 rid acc] Submit [7] CloseCall [8 actor cstep did] CStep [9 actor] CloseRet [10] CsBegin [11] CsRet
      [12 exc] MgrExit [13] Raise [14] SelectBegin [15 ready] Select [16] ReadBegin
      [17 kind n] Read (kind 0 eof, 1 data with n messages, 2 error) [18 b] ChkClosing
-     [19 [] | [rid]] Dispatch [20] CbRaise [21] CbClose [22] ErrBroadcast [23] WorkerCloseCall [24] Exit *)
+     [19 [] | [rid]] Dispatch [20] CbRaise [21 [] | [rid]] CbClose [22] ErrBroadcast [23] WorkerCloseCall [24] Exit *)
 From NC Require Import Model.Base Model.Close.
 
 Definition nb (n : N) : bool := negb (N.eqb n 0).
@@ -43,7 +43,9 @@ Definition dec_label (v : val) : option label :=
   | VL [VN 18; VN b] => Some (ChkClosing (nb b))
   | VL [VN 19; VL []] => Some (Dispatch None)
   | VL [VN 19; VL [VN rid]] => Some (Dispatch (Some rid))
-  | VL [VN 20] => Some CbRaise | VL [VN 21] => Some CbClose | VL [VN 22] => Some ErrBroadcast
+  | VL [VN 20] => Some CbRaise | VL [VN 22] => Some ErrBroadcast
+  | VL [VN 21; VL []] => Some (CbClose None)
+  | VL [VN 21; VL [VN rid]] => Some (CbClose (Some rid))
   | VL [VN 23] => Some WorkerCloseCall | VL [VN 24] => Some Exit
   | _ => None
   end.
